@@ -364,6 +364,18 @@ func c02TripPolarity(r *core.Run) {
 		r.Check(ph != nil && consts >= 4, "C02.TRIPSWAP", core.FuncName(fn)+"#both-orientations", fn.Pos(), "the trip count is derived for both orientations of the header test (operator complemented when the true edge exits)", "the trip count is derived only when the true edge of the header test stays in the loop: the same loop written with the opposite test gets 'TripCount: ?' and a different fingerprint")
 	}
 	r.Floor("C02.TRIPSWAP", "trip-count derivation", n, 1)
+	// ... and the complement it applies is the right one: the polarity clauses of C12's trip-count rule are necessary
+	// here (a wrong complement gives the two spellings of one loop different TripCount lines)
+	for _, fn := range p.FuncsIn("pkg/analysis/loop") {
+		if tripOperatorPhi(fn) == nil {
+			continue
+		}
+		r.Filter = func(o *core.Obligation) bool {
+			return strings.HasSuffix(o.Construct, "/operator-follows-polarity") || strings.HasSuffix(o.Construct, "/exactly-one-successor-stays")
+		}
+		r.Under("C12.TRIP", "C02.TRIPSWAP", func() { c12Trip(r, fn) })
+		r.Filter = nil
+	}
 }
 
 // tripOperatorPhi: the token-typed phi that the trip-count derivation switches on (operator as written / complemented).
@@ -549,6 +561,66 @@ func c02Abst(r *core.Run) {
 		r.Check(dep == "", "C02.ABST", core.FuncName(norm)+"#abstracted-literal", ret.Pos(), "an abstracted literal is rendered from its type only", "an abstracted literal's rendering depends on its value ("+dep+"): replacing the literal changes the fingerprint")
 	}
 	r.Floor("C02.ABST", "abstraction branch of the constant renderer", n, 1)
+
+	// literals inside symbolic expressions (trip counts, recurrences) follow the same policy: the node that prints
+	// an integer constant asks the renamer first on every path, and the canonicaliser's renamer answers from
+	// ShouldAbstract with a text that does not depend on the value
+	nNode := 0
+	for _, fn := range p.FuncsIn("pkg/analysis/loop") {
+		if fn.Name() != "StringWithRenamer" || fn.Signature.Recv() == nil || len(fn.Params) < 2 {
+			continue
+		}
+		printsBig := false
+		core.InstrsOf(fn, func(in ssa.Instruction) {
+			if c := core.CallOf(in); c != nil {
+				switch core.CalleeName(c) {
+				case "(*math/big.Int).String", "(*math/big.Int).Text", "(*math/big.Int).Int64", "(*math/big.Int).Uint64", "(*math/big.Int).Format":
+					printsBig = true
+				}
+			}
+		})
+		if !printsBig {
+			continue
+		}
+		nNode++
+		ask, wit := renamerAskedOnEveryPath(fn, "loop.ConstRef", nil)
+		r.Check(len(ask) > 0 && wit == nil, "C02.ABST", core.FuncName(fn)+"#symbolic-literal-asks-policy", fn.Pos(),
+			"an integer constant of a symbolic expression is printed only after the renamer (the literal policy) was asked",
+			"an integer constant of a symbolic expression is printed without asking the renamer (path "+core.FmtPath(wit)+"): a loop bound or start value that the policy abstracts everywhere else leaks through the TripCount line and {start, +, step}, so replacing the literal changes the fingerprint")
+	}
+	r.Floor("C02.ABST", "symbolic-expression nodes that print an integer constant", nNode, 1)
+	nAns := 0
+	for _, fn := range p.FuncsIn("pkg/analysis/ir") {
+		var ta *ssa.TypeAssert
+		core.InstrsOf(fn, func(in ssa.Instruction) {
+			if t, ok := in.(*ssa.TypeAssert); ok && strings.HasSuffix(t.AssertedType.String(), "loop.ConstRef") {
+				ta = t
+			}
+		})
+		if ta == nil {
+			continue
+		}
+		nAns++
+		answered, dep := false, ""
+		for _, ret := range core.Returns(fn) {
+			ok1, n1, _ := core.MustPass(fn, ret.Block(), core.BoolGuard(func(x ssa.Value) bool {
+				c, ok := x.(*ssa.Call)
+				return ok && strings.HasSuffix(core.CalleeName(&c.Call), ".ShouldAbstract")
+			}, true))
+			if !(ok1 && n1 > 0) {
+				continue
+			}
+			if k, isC := core.ConstString(ret.Results[0]); isC && k != "" {
+				answered = true
+			} else {
+				dep = core.Canon(ret.Results[0])
+			}
+		}
+		r.Check(answered && dep == "", "C02.ABST", core.FuncName(fn)+"#symbolic-literal-answer", ta.Pos(),
+			"the renamer answers a literal request from ShouldAbstract with a fixed placeholder",
+			"the renamer's answer for a literal inside a symbolic expression is not a fixed placeholder under ShouldAbstract ("+dep+")")
+	}
+	r.Floor("C02.ABST", "renamer clause answering literal requests", nAns, 1)
 }
 
 func c02Comm(r *core.Run) {
